@@ -220,24 +220,20 @@ theorem insertBlock_ext {T : Nat → Option Block} {s : St} {b y : Block} {c : L
     Safe (insertBlock cont s b).1 ∧
     ∃ c', Inv T (insertBlock cont s b).1.disk (insertBlock cont s b).1.mem c' ∧ (b :: c) <:+ c' ∧
       Kept s.mem.pending c' (insertBlock cont s b).1.mem.pending := by
-  unfold insertBlock
-  simp only
-  have hmem : (insertA s b).mem = s.mem := by simp [insertA]
-  rw [hmem, hv]
-  simp only [Bool.not_true, Bool.false_and]
-  obtain ⟨hsB, invB, hkB⟩ := insertAB_safe hs inv hp hy hh hn hT hfresh
-  cases hf : (insertB (insertA s b) b).mem.future b.hash with
+  rw [insertBlock_hit cont s b hv]
+  obtain ⟨hsB, invB, hkB⟩ := insertAB_safe (s := touchVerified s b) hs (touchVerified_inv inv) hp hy hh hn hT hfresh
+  cases hf : (insertB (insertA (touchVerified s b) b) b).mem.future b.hash with
   | none =>
-    simp only [Bool.false_eq_true, if_false]
+    simp only
     refine ⟨hsB, b :: c, invB, List.suffix_refl _, ?_⟩
     intro t ht
     by_cases hb : t ∈ b.txs
     · exact Or.inr ⟨b, List.mem_cons_self .., hb⟩
     · exact Or.inl (hkB t ht hb)
   | some f =>
-    simp only [Bool.false_eq_true, if_false]
+    simp only
     have hfut := invB.fut _ _ hf
-    have hlat : (insertB (insertA s b) b).mem.latest = b := by
+    have hlat : (insertB (insertA (touchVerified s b) b) b).mem.latest = b := by
       have := invB.latest; simp at this; exact this.symm
     obtain ⟨h1, c'', h2, h3, h4⟩ := hcont _ f _ hsB invB hfut.2 (by rw [hlat]; exact hfut.1)
     refine ⟨h1, c'', h2, h3, ?_⟩
